@@ -37,8 +37,13 @@ def main(run):
     sp = None
     for i in range(n_pairs):
         if i % 3 == 0:
-            schema = gen_schema(rng, odd_type_names=(i % 9 == 0))
-            fmt, text, ext = render_schema(schema, rng)
+            # every fourth schema is an SDL one with an explicit schema block that leaves out a root, next to an ordinary
+            # object type carrying that root's conventional name (E10: an operation kind the schema has no root for)
+            decoy = (i % 12 == 3)
+            schema = gen_schema(rng, odd_type_names=(i % 9 == 0), decoy_roots=True if decoy else None)
+            fmt, text, ext = render_schema(schema, rng, "sdl" if decoy else None)
+            if decoy:
+                run.count("schemas-with-decoy-root-names")
             sp = os.path.join(work, "s%d.%s" % (i, ext))
             with open(sp, "w") as f:
                 f.write(text)
